@@ -1,6 +1,7 @@
 """C19 - Avro export preserves supported values and never corrupts silently."""
 import datetime as _d
 import os
+import re
 import shutil
 import struct
 
@@ -80,14 +81,16 @@ def case_strategy(draw):
     for _ in range(n):
         k = draw(st.integers(0, 9))
         if k == 0:
-            recs.append(("other-descriptor", None))
+            recs.append((draw(st.sampled_from(["other-descriptor", "other-descriptor:same-name", "other-descriptor:colliding"])), None))
             continue
         vals = [draw(value_of(t)) for t in types]
         if k >= 3:
             # mostly representable records, so that refusals sit between accepted ones
             vals = [(v, ok) if ok else (None, True) for v, ok in vals]
         recs.append(("rec", vals))
-    return {"desc": desc, "recs": recs, "flush_every": draw(st.sampled_from([0, 0, 1, 2]))}
+    return {"desc": desc, "recs": recs, "flush_every": draw(st.sampled_from([0, 0, 1, 2])),
+            # an idle flush (timer, empty first source) before the first record
+            "flush_first": draw(st.sampled_from([0, 0, 0, 1, 2]))}
 
 
 def f32(x):
@@ -136,11 +139,29 @@ def check(case, ctx):
         saw_refusal = False
         k = 0
         try:
+            for _ in range(case.get("flush_first", 0)):
+                fres = impl(w.flush)
+                if not fres.ok:
+                    raise Violation("avro/flush-before-first-record-raised", "%r" % (fres,))
+                ctx.cls("flush-before-first-record")
             for kind, vals in case["recs"]:
-                if kind == "other-descriptor":
+                if kind.startswith("other-descriptor"):
                     if not accepted and not saw_refusal:
                         continue  # the first record fixes the file's descriptor: keep it the generated one
-                    res = impl(w.write, other("x", _generated=gen_ts))
+                    second = other
+                    if kind.endswith(":same-name"):
+                        # the next generation of the same type: one more field
+                        second = RecordDescriptor(name, [tuple(f) for f in fields] + [("string", "zz_added")])
+                    elif kind.endswith(":colliding"):
+                        # same name and same identifier (the 32-bit hash runs over the concatenated field names and
+                        # types): all fields folded into one field whose name spells the others
+                        if len(fields) >= 2 and all(re.fullmatch(r"[A-Za-z0-9_]+", t) for t, _ in fields[:-1]):
+                            folded = "".join(n + t for t, n in fields[:-1]) + fields[-1][1]
+                            second = RecordDescriptor(name, [(fields[-1][0], folded)])
+                            if second.identifier != desc.identifier:
+                                raise RuntimeError("harness: folded descriptor does not collide")
+                            ctx.cls("second-descriptor:identifier-collision")
+                    res = impl(w.write, second(_generated=gen_ts) if second is not other else other("x", _generated=gen_ts))
                     if res.ok:
                         raise Violation("avro/second-descriptor-accepted", "a record of another type was accepted into the file")
                     saw_refusal = True
@@ -239,6 +260,8 @@ def _after_refusal(p, accepted, fields, name, ctx):
     if len(got.value) != len(accepted):
         raise Violation(sig, "after a refused record the file holds %d records, %d were accepted" % (len(got.value), len(accepted)))
     for a, b in zip(accepted, got.value):
+        if b._desc.name != name or tuple(tuple(f) for f in b._desc.get_field_tuples()) != tuple(tuple(f) for f in fields):
+            raise Violation("avro/descriptor", "read back as %r %r" % (b._desc.name, b._desc.get_field_tuples()))
         for t, n in list(fields) + [("datetime", "_generated")]:
             if not expect_equal(t, getattr(a, n), getattr(b, n)):
                 raise Violation(sig, "after a refused record field %s (%s) of an ACCEPTED record reads %r, written %r"
